@@ -68,7 +68,7 @@ def run(chk):
     entries, rules, _ = tablegen.gen_c06_table(r0, directions=("noback", "nofor"))
     bases.append(("gen", tablegen.pass_table_text(entries, rules)))
     if not quick:
-        for t in ("en-us-g1.ctb", "en-us-comp6.ctb", "de-g0-core.uti", "cs-g1.ctb", "nemeth.ctb"):
+        for t in [x for x in ("en-us-g1.ctb", "en-us-comp6.ctb", "de-g0-core.uti", "cs-g1.ctb", "nemeth.ctb", "ukmaths_single_cell_defs.cti") if (REPO / "tables" / x).exists()]:
             bases.append((t, (REPO / "tables" / t).read_text(errors="replace")))
     else:
         bases.append(("en-chardefs.cti", (REPO / "tables" / "en-chardefs.cti").read_text(errors="replace")))
